@@ -279,6 +279,8 @@ def netlist_cases(draw, max_nodes, n_cycles):
         if nd['op'] == 'Add' and nd['args'][0] == nd['args'][1]:
             nd['op'] = 'Sub'          # known finding c01-aliased-ports excluded by construction (counted)
             excluded += 1
+    if draw(st.integers(0, 2)) == 0:
+        desc['scoped_wire_names'] = True      # every block numbers its wires from 0: inner and outer wires share names
     n = draw(st.integers(1, n_cycles))
     seq = [[draw(value_st(i['w'])) for i in desc['inputs']] for _ in range(n)]
     return {'kind': 'netlist', 'desc': desc, 'inputs': seq, 'excluded_known': excluded}
